@@ -34,6 +34,21 @@ struct PartyOut
 	PartyOut() : honest(true), finished(false), fmode(0), restarts(0) {}
 };
 
+// a log whose lines start with the simulated time ("@<ms> "): the order of events across the parties' logs
+struct StampBuf : public std::streambuf
+{
+	Sim *S; std::string text; bool bol;
+	StampBuf() : S(NULL), bol(true) {}
+	virtual int_type overflow(int_type c)
+	{
+		if (c == traits_type::eof()) return traits_type::not_eof(c);
+		if (bol) { text += "@" + std::to_string(S ? (long long)S->now_ms : 0LL) + " "; bol = false; }
+		text.push_back((char)c); if (c == '\n') bol = true;
+		return c;
+	}
+	virtual std::streamsize xsputn(const char *p, std::streamsize n) { for (std::streamsize i = 0; i < n; i++) overflow((unsigned char)p[i]); return n; }
+};
+
 struct World
 {
 	const Plan &plan;
@@ -109,7 +124,7 @@ static void party_main(World &W, size_t i)
 	SimUnicast aiou2(W.bnet.get(), i, aiounicast::aio_scheduler_roundrobin, W.Tu);
 	CachinKursawePetzoldShoupRBC rbc(W.n, W.trbc, i, &aiou2, aiounicast::aio_scheduler_roundrobin, W.Tb);
 	rbc.setID("tmcgsim-dkg");
-	std::ostringstream err;
+	StampBuf errbuf; errbuf.S = &W.S; std::ostream err(&errbuf);
 	time_t sync_t = aiounicast::aio_timeout_middle;
 	switch (W.proto)
 	{
@@ -261,7 +276,7 @@ static void party_main(World &W, size_t i)
 			break;
 		}
 	}
-	po.errlog = err.str();
+	po.errlog = errbuf.text;
 	po.finished = true;
 }
 
@@ -496,7 +511,9 @@ static RunResult dkg_execute_inner(const Plan &plan, const std::vector<uint64_t>
 		if (W.t == 0 && !zcmp_ui(W.vss_secret, 0)) mpz_set_ui(W.vss_secret, 1);
 	}
 	bool private_timeout = false; bool *ptp = &private_timeout;
-	W.unet->on_timeout = [Wp, ptp](size_t dst, size_t src){ if (src < Wp->n && !Wp->faulty[dst] && !Wp->faulty[src]) *ptp = true; };
+	int64_t t_hh = -1; int64_t *thp = &t_hh; // simulated time of the first time-out between two honest parties
+	W.unet->on_timeout = [Wp, ptp, thp](size_t dst, size_t src){ if (src < Wp->n && !Wp->faulty[dst] && !Wp->faulty[src]) { *ptp = true; if (*thp < 0) *thp = (int64_t)Wp->S.now_ms; } };
+	StampBuf cerrbuf; cerrbuf.S = &W.S; std::streambuf *cerr_prev = std::cerr.rdbuf(&cerrbuf);
 	int64_t skew = plan.get("skew", 0);
 	for (size_t i = 0; i < W.n; i++)
 	{
@@ -508,7 +525,8 @@ static RunResult dkg_execute_inner(const Plan &plan, const std::vector<uint64_t>
 	W.S.run();
 	if (W.S.step_budget_hit) W.res.cnt["probe.step_budget_hit"]++;
 	// ---- assumption check: an honest party timed out on another honest party -> outside the quantifier
-	std::string cerr_all = W.cap.str();
+	std::cerr.rdbuf(cerr_prev);
+	std::string cerr_all = cerrbuf.text + W.cap.str();
 	bool assumption_broken = false;
 	for (size_t i = 0; i < W.n && !assumption_broken; i++)
 		for (size_t j = 0; j < W.n; j++)
@@ -516,6 +534,17 @@ static RunResult dkg_execute_inner(const Plan &plan, const std::vector<uint64_t>
 			if (W.faulty[i] || W.faulty[j] || i == j) continue;
 			std::ostringstream pat; pat << "RBC(" << i << "): timeout delivering from " << j << "\n";
 			if (cerr_all.find(pat.str()) != std::string::npos) { assumption_broken = true; break; }
+		}
+	// time of the first broadcast time-out between two honest parties (stamped lines of the library's log)
+	for (size_t i = 0; i < W.n; i++)
+		for (size_t j = 0; j < W.n; j++)
+		{
+			if (W.faulty[i] || W.faulty[j] || i == j) continue;
+			std::ostringstream pat; pat << " RBC(" << i << "): timeout delivering from " << j << "\n";
+			size_t pos = cerr_all.find(pat.str());
+			if (pos == std::string::npos) continue;
+			size_t ls = cerr_all.rfind('@', pos);
+			if (ls != std::string::npos) { int64_t tm = atoll(cerr_all.c_str() + ls + 1); if (t_hh < 0 || tm < t_hh) t_hh = tm; }
 		}
 	if (W.S.step_budget_hit || W.S.aborting || private_timeout) assumption_broken = true;
 	if (getenv("TMCGSIM_TRACE")) { printf("%s\n", cerr_all.c_str()); for (size_t i = 0; i < W.n; i++) printf("---- party %zu log ----\n%s\n", i, W.out[i].errlog.c_str()); fflush(stdout); }
@@ -529,6 +558,33 @@ static RunResult dkg_execute_inner(const Plan &plan, const std::vector<uint64_t>
 	std::vector<size_t> H;
 	for (size_t i = 0; i < W.n; i++) if (!W.faulty[i]) H.push_back(i);
 	const Grp &G = *W.G;
+	// A run that leaves the synchrony assumption is not judged - but a disagreement on the set of qualified parties
+	// that every honest party logged BEFORE the first time-out between honest parties happened inside the
+	// assumption (and is what makes honest parties time out on each other afterwards)
+	if (assumption_broken && !W.S.step_budget_hit && H.size() >= 2)
+	{
+		std::vector<std::string> q; int64_t t_last = -1; bool all = true;
+		for (size_t a = 0; a < H.size() && all; a++)
+		{
+			const std::string &lg = W.out[H[a]].errlog; size_t pos = lg.find(": QUAL = {");
+			if (pos == std::string::npos) { all = false; break; }
+			size_t ls = lg.rfind('@', pos), le = lg.find('\n', pos);
+			if (ls == std::string::npos || le == std::string::npos) { all = false; break; }
+			int64_t tm = atoll(lg.c_str() + ls + 1); if (tm > t_last) t_last = tm;
+			q.push_back(lg.substr(pos + 2, le - pos - 2));
+		}
+		if (all && t_hh >= 0 && t_last < t_hh)
+		{
+			W.res.cnt["probe.qual_judged_before_first_timeout"]++;
+			for (size_t a = 1; a < q.size(); a++)
+				if (q[a] != q[0])
+				{
+					W.res.excluded = false;
+					W.violate("C15", "qual_differs", "honest parties " + std::to_string(H[0]) + " and " + std::to_string(H[a]) + " logged different sets (" + q[0] + " vs " + q[a] + ") at " + std::to_string((long long)t_last) + " ms, before the first time-out between honest parties at " + std::to_string((long long)t_hh) + " ms");
+					break;
+				}
+		}
+	}
 	if (!assumption_broken)
 	{
 		for (size_t a = 0; a < H.size() && W.res.ok(); a++)
